@@ -1595,3 +1595,655 @@ def c20_r6_read_only(ctx):
                     pts.append(Point(f, i, j, 'DatabaseError::RepairAborted', s_[3]))
         ctx.check(len(pts) == 1, 'floor|RepairAborted', 'TM::new constructs RepairAborted once', f, f.line)
         ctx.guarded(f, pts, [Guard(place='read_only', vals={'true'})])
+
+
+# ------------------------------------------------------------------------------------ C06
+def c06_r2_handover(ctx):
+    ctx.set_rule('C06.R2', 'linear hand-over of freed and allocated page lists at commit')
+    f = ctx.fn(WT + '::commit_inner_helper')
+    if f is not None:
+        fc = ctx.sites(f, 'TableTreeMut::flush_and_close', exact=1)
+        ru = ctx.sites(f, TM + '::record_unpersisted_data_freed', exact=1)
+        sd = ctx.sites(f, WT + '::store_data_freed_pages', exact=1)
+        ctx.must_pass(f, ru + sd, start=fc[0] if fc else None, what='every success path records the freed data pages (in memory or in DATA_FREED_TABLE)')
+        for p in ru:
+            ctx.flows(f, p, 2, from_call='TableTreeMut::flush_and_close')
+        for p in sd:
+            ctx.flows(f, p, 1, from_call='TableTreeMut::flush_and_close')
+        # exactly one of them on a path: they sit on different arms of the durability match
+        if ru and sd:
+            r1 = core.reach(f, start=(ru[0].bb, ru[0].idx))
+            r2 = core.reach(f, start=(sd[0].bb, sd[0].idx))
+            ctx.check(sd[0].bb not in r1['term'] and ru[0].bb not in r2['term'], 'exclusive|%s|freed-record' % f.path, 'a commit records its freed pages exactly once (the two recorders are on exclusive arms)', f, ru[0].line)
+        dc = ctx.sites(f, WT + '::durable_commit', exact=1)
+        nd = ctx.sites(f, WT + '::non_durable_commit', exact=1)
+        for p in dc + nd:
+            ctx.flows(f, p, 2, from_call='TableTreeMut::flush_and_close', what='allocated page list derives from flush_and_close')
+        ctx.must_pass(f, dc + nd, start=fc[0] if fc else None, what='every success path commits')
+    f = ctx.fn(WT + '::durable_commit')
+    if f is not None:
+        fa = ctx.sites(f, WT + '::flush_data_allocated_pages', exact=1)
+        for p in fa:
+            ctx.flows(f, p, 1, from_arg='allocated_pages')
+        ctx.must_pass(f, fa, what='a durable commit always records its allocations')
+    f = ctx.fn(WT + '::non_durable_commit')
+    if f is not None:
+        ra = ctx.sites(f, TM + '::record_unpersisted_allocations', exact=1)
+        for p in ra:
+            ctx.flows(f, p, 2, from_arg='allocated_pages')
+        cm = ctx.sites(f, TM + '::non_durable_commit', exact=1)
+        ctx.must_pass(f, ra, start=cm[0] if cm else None, what='a non-durable commit always records its allocations in memory')
+        for p in cm:
+            ctx.flows(f, p, 4, from_call=PA + '::take_allocated_since_commit', what='newly unpersisted set = pages allocated since the last commit')
+    f = ctx.fn(WT + '::store_data_freed_pages')
+    if f is not None:
+        s_ = ctx.sites(f, WT + '::store_data_freed_pages_for', exact=1)
+        for p in s_:
+            ctx.flows(f, p, 2, from_arg='freed_pages')
+        ctx.must_pass(f, s_)
+
+
+def c06_r3_durable_drains(ctx):
+    ctx.set_rule('C06.R3', 'durable commit drains the in-memory stand-ins, in order')
+    f = ctx.fn(WT + '::durable_commit')
+    if f is not None:
+        a = ctx.sites(f, TM + '::take_unpersisted_data_freed', exact=1)
+        b = ctx.sites(f, WT + '::process_freed_pages', exact=1)
+        c = ctx.sites(f, WT + '::flush_data_allocated_pages', exact=1)
+        d = ctx.sites(f, TM + '::commit', exact=1)
+        ctx.order(f, a, b)
+        ctx.order(f, b, c, 'allocations flushed after reclaimed pages were dropped from the in-memory map')
+        ctx.order(f, c, d)
+        sf = ctx.sites(f, WT + '::store_data_freed_pages_for', exact=1)
+        for p in sf:
+            ctx.flows(f, p, 2, from_call=TM + '::take_unpersisted_data_freed')
+        ctx.guarded(f, d, [ok(WT + '::process_freed_pages'), ], 'commit only after freed pages were processed')
+        ctx.guarded(f, d, [ok(WT + '::flush_data_allocated_pages')])
+    ctx.callers_eq('UnpersistedState::clear', {TM + '::commit', TM + '::clear_cache_and_reload'})
+    ctx.callers_eq(TM + '::take_unpersisted_data_freed', {WT + '::durable_commit'})
+    ctx.callers_eq(TM + '::take_unpersisted_allocations', {WT + '::flush_data_allocated_pages'})
+    f = ctx.fn(WT + '::flush_data_allocated_pages')
+    if f is not None:
+        tk = ctx.sites(f, TM + '::take_unpersisted_allocations', exact=1)
+        we = ctx.sites(f, WT + '::write_allocated_pages_entry', exact=2)
+        ctx.must_pass(f, we, what='allocations are written to DATA_ALLOCATED_TABLE on every success path')
+
+
+def c06_r4_rebuild(ctx):
+    ctx.set_rule('C06.R4', 'the allocator rebuild uses the same ownership rule')
+    f = ctx.fn('Database::rebuild_allocator_state')
+    if f is not None:
+        rs = ctx.sites(f, TM + '::reset_allocator_state', exact=1)
+        va = ctx.sites(f, 'TableTree::visit_all_pages', exact=2)
+        vf = ctx.sites(f, 'Database::visit_freed_tree', exact=2)
+        up = ctx.sites(f, TM + '::unpersisted_data_freed_pages', exact=1)
+        ctx.order(f, rs, va + vf + up)
+        for x in va + vf + up:
+            ctx.must_pass(f, [x], what='every successful rebuild passes %s' % x.desc)
+        names = set()
+        for p in vf:
+            a = p.call.t['a'][1]
+            names.add(a[3] if a[0] == 'k' and len(a) > 3 else None)
+        ctx.check(names == {'transactions::DATA_FREED_TABLE', 'transactions::SYSTEM_FREED_TABLE'}, 'const|visit_freed_tree', 'both freed tables (DATA_FREED_TABLE, SYSTEM_FREED_TABLE) are walked (found %s)' % sorted(str(n) for n in names), f, f.line)
+        mk = ctx.sites(f, TM + '::mark_page_allocated', floor=5, family=True)
+        direct = ctx.sites(f, TM + '::mark_page_allocated', exact=1)
+        for p in direct:
+            ctx.flows(f, p, 1, from_call=TM + '::unpersisted_data_freed_pages')
+        # every closure passed to a walker marks the page
+        for cl in f.closures:
+            if cl.calls_to(TM + '::mark_page_allocated'):
+                ctx.must_pass(cl, [cpoint(c) for c in cl.calls_to(TM + '::mark_page_allocated')], exits='any', what='walker closure always marks the page')
+        rc = ctx.sites(f, 'Database::with_recounted_length', exact=2)
+        for p in rc:
+            ctx.flows(f, p, 1, from_call='TableTree::count_tables', what='returned roots carry recounted lengths')
+    ctx.callers_eq(TM + '::mark_page_allocated', {'Database::rebuild_allocator_state'})
+    ctx.callers_eq(TM + '::reset_allocator_state', {'Database::rebuild_allocator_state'})
+    ctx.callers_eq('Database::rebuild_allocator_state', {'Database::do_repair', 'Database::repair_live_state'})
+
+
+def c06_r5_tracking(ctx):
+    ctx.set_rule('C06.R5', 'allocation tracking switched off only when no savepoint can need it')
+    f = ctx.fn('TableNamespace::set_dirty')
+    if f is not None:
+        d = ctx.sites(f, 'PageTracker::disable', exact=1)
+        ctx.guarded(f, d, [false_of(TT + '::any_savepoint_exists')])
+        st = ctx.atomic_sites(f, 'store', 'dirty', exact=1, value=True)
+        ctx.order(f, st, d, 'dirty flag set before the savepoint test')
+    ctx.callers_eq('PageTracker::disable', {'TableNamespace::set_dirty'})
+    ctx.callers_eq('TableNamespace::set_dirty', {'TableNamespace::open_table', 'TableNamespace::open_multimap_table', 'TableNamespace::rename_table', 'TableNamespace::rename_multimap_table', 'TableNamespace::delete_table', 'TableNamespace::delete_multimap_table'})
+    for nm in ('open_table', 'open_multimap_table', 'rename_table', 'rename_multimap_table', 'delete_table', 'delete_multimap_table'):
+        g = ctx.fn('TableNamespace::' + nm)
+        if g is not None:
+            sd = ctx.sites(g, 'TableNamespace::set_dirty', exact=1)
+            ctx.must_pass(g, sd, what='%s always marks the transaction dirty' % nm)
+
+
+def c06_r6_restore(ctx):
+    ctx.set_rule('C06.R6', 'restore: swap root, purge later freed records, free tracked allocations, queue allocations since the savepoint')
+    f = ctx.fn(WT + '::restore_savepoint_inner')
+    if f is None:
+        return
+    sr = ctx.sites(f, 'TableNamespace::set_root', exact=1)
+    for p in sr:
+        ctx.flows(f, p, 1, from_call='Savepoint::get_user_root')
+    ex = ctx.sites(f, 'SystemTable::extract_from_if', exact=1)
+    rs = ctx.sites(f, 'PageTracker::reset', exact=1)
+    fr = ctx.sites(f, PA + '::free', exact=1)
+    ua = ctx.sites(f, TM + '::unpersisted_allocations_after', exact=1)
+    pu = ctx.sites(f, 'Vec::push', exact=2)
+    rg = ctx.sites(f, 'SystemTable::range', exact=1)
+    ri = ctx.sites(f, 'SavepointTransactionState::record_invalidated', exact=1)
+    for x in sr + ex + rs + ua + rg + ri:
+        ctx.must_pass(f, [x], what='every successful restore passes %s' % x.desc)
+    for p in ua:
+        ctx.flows(f, p, 1, from_call='Savepoint::get_transaction_id')
+    opens = ctx.sites(f, 'SystemNamespace::open_system_table', exact=2)
+    names = set()
+    for p in opens:
+        a = p.call.t['a'][1]
+        names.add(a[3] if a[0] == 'k' and len(a) > 3 else None)
+    ctx.check(names == {'transactions::DATA_FREED_TABLE', 'transactions::DATA_ALLOCATED_TABLE'}, 'const|restore-tables', 'restore purges DATA_FREED_TABLE and scans DATA_ALLOCATED_TABLE (found %s)' % sorted(str(n) for n in names), f, f.line)
+    st = ctx.stores(f, 'restored_transaction', owner='WriteTransaction')
+    ctx.must_pass(f, st, what='successful restore records the restored transaction')
+    cl = ctx.sites(f, 'Vec::clear', exact=1)
+    ctx.order(f, cl, pu, 'stale freed list cleared before the pages allocated since the savepoint are queued')
+
+
+# ------------------------------------------------------------------------------------ C07
+def c07_rules(ctx):
+    ctx.set_rule('C07.R1', 'savepoint capture: dirty test and registration under the tables lock')
+    f = ctx.fn(WT + '::ephemeral_savepoint')
+    if f is not None:
+        ld = ctx.atomic_sites(f, 'load', 'self.dirty', exact=1)
+        al = ctx.sites(f, WT + '::allocate_savepoint', exact=1)
+        ctx.held(f, ld + al, 'self.tables')
+        ctx.guarded(f, al, [Guard(place='self.dirty', vals={'false'})], 'no savepoint in a dirty transaction')
+    ctx.set_rule('C07.R2', 'validity checks cut off the restore')
+    f = ctx.fn(WT + '::restore_savepoint')
+    if f is not None:
+        ri = ctx.sites(f, WT + '::restore_savepoint_inner', exact=1)
+        ctx.guarded(f, ri, [true_of(TT + '::is_valid_savepoint')])
+        ctx.guarded(f, ri, [false_of('SavepointTransactionState::is_invalidated')])
+        ctx.guarded_cmp(f, ri, [Guard(call='Savepoint::db_address', cmp=True)], 'foreign savepoints rejected')
+        # on one arm of the durability test the restore is reachable only if no later persistent savepoint exists
+        e_dur = core.guard_edges(f, [Guard(place='self.durability', cmp=True)])
+        e_any_false = core.guard_edges(f, [false_of('Iterator::any')])
+        okk = False
+        for (bb, si) in sorted(e_dur):
+            others = {(bb, k) for k in range(len(f.succ(bb))) if k != si}
+            r = core.reach(f, cut_edges=others | e_any_false)
+            if ri and ri[0].bb not in r['term'] and bool(e_any_false):
+                okk = True
+        ctx._ob(okk, ctx.sample('guard', f, ri[0].line if ri else f.line, 'non-immediate durability: restore only if no later persistent savepoint exists'))
+        if not okk:
+            ctx.violate('guard|%s|durability-later-persistent' % f.path, 'restore_savepoint_inner is reachable on both outcomes of the durability test without the later-persistent-savepoint check', f, ri[0].line if ri else f.line)
+        st = ctx.atomic_sites(f, 'store', 'self.dirty', exact=1, value=True)
+        ctx.order(f, st, ri)
+    ctx.set_rule('C07.R3', 'persistent savepoint operations require immediate durability')
+    for nm, tg in (('persistent_savepoint', 'SystemTable::insert'), ('delete_persistent_savepoint', 'SystemTable::remove')):
+        f = ctx.fn(WT + '::' + nm)
+        if f is not None:
+            t = ctx.sites(f, tg, floor=1)
+            ctx.guarded_cmp(f, t, [Guard(place='self.durability', cmp=True)], 'system table mutated only behind the durability test')
+    f = ctx.fn(WT + '::set_durability')
+    if f is not None:
+        st = ctx.stores(f, 'durability', owner='WriteTransaction')
+        hc = ctx.sites(f, 'SavepointTransactionState::has_created_or_deleted', exact=1)
+        ctx.order(f, hc, st)
+        # the refusing arm exists: an Err(PersistentSavepointModified) behind has_created_or_deleted true
+        pts = []
+        for i, b_ in enumerate(f.blocks):
+            for j, s_ in enumerate(b_['s']):
+                if s_[0] == 'a' and s_[2]['k'] == 'agg' and s_[2]['v'] == 'PersistentSavepointModified':
+                    pts.append(Point(f, i, j, 'Err(PersistentSavepointModified)', s_[3]))
+        ctx.check(len(pts) == 1, 'floor|PersistentSavepointModified', 'set_durability can refuse', f, f.line)
+        ctx.guarded(f, pts, [true_of('SavepointTransactionState::has_created_or_deleted')])
+        e_f = core.guard_edges(f, [false_of('SavepointTransactionState::has_created_or_deleted'), Guard(place='durability', vals={'Immediate'})])
+        cb, cp = ctx._cuts(f, pts)
+        r = core.reach(f, cut_edges=e_f, cut_points=cp)
+        ctx.check(not any(core.point_reached(f, r, s_.bb, s_.idx) for s_ in st), 'guard|%s|downgrade' % f.path, 'durability cannot be lowered after a persistent savepoint was created or deleted', f, f.line)
+    ctx.set_rule('C07.R4', 'savepoint lifecycle')
+    f = ctx.fn('<Savepoint as Drop>::drop')
+    if f is not None:
+        d = ctx.sites(f, TT + '::deallocate_savepoint', exact=1)
+        ctx.guarded(f, d, [Guard(place='self.ephemeral', vals={'true'})])
+        e_f = core.guard_edges(f, [Guard(place='self.ephemeral', vals={'false'})])
+        ctx.must_pass(f, d, exits='any', extra_cut_edges=e_f, what='dropping an ephemeral savepoint always releases it')
+    f = ctx.fn(WT + '::persistent_savepoint')
+    if f is not None:
+        es = ctx.sites(f, WT + '::ephemeral_savepoint', exact=1)
+        a = ctx.sites(f, 'Savepoint::set_persistent', exact=1)
+        b = ctx.sites(f, TT + '::mark_savepoint_persistent', exact=1)
+        c = ctx.sites(f, 'SavepointTransactionState::record_created', exact=1)
+        for x in (a, b, c):
+            ctx.must_pass(f, x, what='every successful persistent_savepoint passes %s' % (x[0].desc if x else '?'))
+        ins = ctx.sites(f, 'SystemTable::insert', exact=2)
+        ctx.order(f, ins, a, 'savepoint marked persistent only after its record was written')
+        ctx.held(f, ins, 'self.system_tables')
+    f = ctx.fn(WT + '::delete_persistent_savepoint')
+    if f is not None:
+        ts = ctx.sites(f, 'SerializedSavepoint::to_savepoint', exact=1)
+        rm = ctx.sites(f, 'SystemTable::remove', exact=1)
+        rd = ctx.sites(f, 'SavepointTransactionState::record_deleted', exact=1)
+        ctx.guarded(f, rm, [ok('SerializedSavepoint::to_savepoint')], 'record parsed before it is removed')
+        ctx.must_pass(f, rd, start=rm[0] if rm else None, what='a removed savepoint is recorded as deleted')
+    ctx.set_rule('C07.R5', 'commit/abort bookkeeping')
+    c05_r7_savepoint_symmetry(ctx)
+    ctx.set_rule('C07.R6', 're-registration of persistent savepoints on open')
+    f = ctx.fn('Database::new')
+    if f is not None:
+        rc = ctx.sites(f, TT + '::restore_savepoint_counter_state', exact=1)
+        rp = ctx.sites(f, TT + '::register_persistent_savepoint', exact=1)
+        ab = ctx.sites(f, WT + '::abort', exact=1)
+        lp = ctx.sites(f, WT + '::list_persistent_savepoints', exact=1)
+        ctx.guarded(f, rc, [Guard(call=WT + '::next_persistent_savepoint_id', vals={'Some'})])
+        for p in rc:
+            ctx.flows(f, p, 1, from_call=WT + '::next_persistent_savepoint_id')
+        for p in rp:
+            ctx.flows(f, p, 1, from_call=WT + '::get_persistent_savepoint')
+        ctx.must_pass(f, lp, what='every successful open lists the persistent savepoints')
+        ctx.must_pass(f, ab, what='the registration transaction is aborted')
+    ctx.set_rule('C07.R7', 'purge horizon respects staged deletions')
+    f = ctx.fn(WT + '::flush_data_allocated_pages')
+    if f is not None:
+        ex = ctx.sites(f, 'SystemTable::extract_from_if', exact=1)
+        for p in ex:
+            ctx.flows(f, p, 1, from_call=[TT + '::oldest_savepoint_excluding'])
+        os_ = ctx.sites(f, TT + '::oldest_savepoint_excluding', exact=1)
+        for p in os_:
+            ctx.flows(f, p, 1, from_call='SavepointTransactionState::pending_deleted_ids')
+        # return value flows from it
+        rl, rc_, _a, _k = core.flow_sources(f, 0)
+        ctx.check(any(core.CallSite(f, bb, f.blocks[bb]['t']).matches(TT + '::oldest_savepoint_excluding') for bb in rc_), 'flow|%s|return' % f.path, 'the returned horizon derives from oldest_savepoint_excluding', f, f.line)
+    ctx.set_rule('C07.R8', 'a savepoint pins its snapshot like a reader')
+    f = ctx.fn(TT + '::register_persistent_savepoint')
+    if f is not None:
+        e = ctx.sites(f, 'BTreeMap::entry', exact=1)
+        i = ctx.sites(f, 'BTreeMap::insert', exact=1)
+        ctx.held(f, e + i, TTSTATE)
+        ctx.sites(f, 'Mutex::lock', exact=1)
+        for p in e:
+            ctx.flows(f, p, 1, from_call='Savepoint::get_transaction_id')
+    f = ctx.fn(TT + '::deallocate_savepoint')
+    if f is not None:
+        d = ctx.sites(f, TT + '::deallocate_read_transaction', exact=1)
+        ctx.must_pass(f, d, exits='any', what='a released savepoint releases its read pin')
+        for p in d:
+            ctx.flows(f, p, 1, from_arg='transaction')
+    f = ctx.fn(TT + '::allocate_savepoint')
+    if f is not None:
+        ctx.held(f, ctx.sites(f, 'BTreeMap::insert', exact=1), TTSTATE)
+
+
+# ------------------------------------------------------------------------------------ C11
+def c11_rules(ctx):
+    ctx.set_rule('C11.R1', 'a saved allocator snapshot is trusted only if it belongs to the commit being opened')
+    f = ctx.fn('Database::get_allocator_state_table')
+    if f is not None:
+        # Some(tree) return
+        somes = []
+        for i, b_ in enumerate(f.blocks):
+            for j, s_ in enumerate(b_['s']):
+                if s_[0] == 'a' and s_[2]['k'] == 'agg' and s_[2]['v'] == 'Some' and s_[2]['a'].endswith('Option') and 'AllocatorStateTree' in (f.local_ty(s_[1][0]) if not s_[1][1] else '') or (s_[0] == 'a' and s_[2]['k'] == 'agg' and s_[2]['v'] == 'Some' and any('Btree' in f.local_ty(o[1][0]) for o in s_[2]['o'] if o[0] in ('c', 'm'))):
+                    somes.append(Point(f, i, j, 'return Some(tree)', s_[3]))
+        ctx.check(len(somes) >= 1, 'floor|%s|some' % f.path, 'get_allocator_state_table has a Some(tree) return', f, f.line)
+        ctx.guarded(f, somes, [true_of(TM + '::used_two_phase_commit')], 'snapshot only after a two-phase commit')
+        ctx.guarded(f, somes, [true_of(TM + '::is_valid_allocator_state')], 'snapshot only if it carries the id of the commit being opened')
+        gt = ctx.sites(f, 'TableTree::get_table', exact=1)
+        ctx.guarded(f, gt, [true_of(TM + '::used_two_phase_commit')])
+    f = ctx.fn(TM + '::is_valid_allocator_state')
+    if f is not None:
+        g = ctx.sites(f, TM + '::get_last_committed_transaction_id', exact=1)
+        eq = ctx.sites(f, 'PartialEq::eq', floor=1)
+        okk = False
+        for p in eq:
+            _l, calls, _a, consts = core.flow_sources(f, p.call.t['a'][0])
+            _l2, calls2, _a2, consts2 = core.flow_sources(f, p.call.t['a'][1])
+            allc = calls | calls2
+            names = [core.CallSite(f, bb, f.blocks[bb]['t']) for bb in allc]
+            if any(n.matches(TM + '::get_last_committed_transaction_id') for n in names) and any(n.matches('Btree::get') for n in names):
+                okk = True
+        ctx.check(okk, 'flow|%s|compare' % f.path, 'is_valid_allocator_state compares the stored transaction id (Btree::get of the TransactionId key) with get_last_committed_transaction_id', f, f.line)
+        key = [c for c in f.calls if c.matches('Btree::get')]
+    f = ctx.fn(TM + '::load_allocator_state')
+    if f is not None:
+        iv = ctx.sites(f, TM + '::is_valid_allocator_state', exact=1)
+        st = ctx.stores(f, 'allocators', owner='InMemoryState')
+        rz = ctx.sites(f, 'Allocators::resize_to', exact=1)
+        ctx.guarded(f, st, [true_of(TM + '::is_valid_allocator_state')], 'allocator state installed only behind the validity assert')
+        ctx.must_pass(f, rz, what='loaded allocators are resized to the file layout')
+        ctx.order(f, st, rz)
+    ctx.callers_eq(TM + '::load_allocator_state', {'Database::new', 'ReadOnlyDatabase::new'}, allow_missing=({'ReadOnlyDatabase::new'} if ctx.cfg == 'N' else ()))
+    ctx.set_rule('C11.R3', 'the snapshot is written inside the commit it describes')
+    f = ctx.fn(WT + '::durable_commit')
+    if f is not None:
+        ct = ctx.sites(f, 'TableTreeMut::create_table_and_flush_table_root', exact=1)
+        ctx.guarded(f, ct, [Guard(place='self.quick_repair', vals={'true'})], 'snapshot only with quick repair')
+        ctx.guarded(f, ct, [false_of(TM + '::needs_repair')], 'no snapshot of an allocator that needs repair')
+        fin = ctx.sites(f, 'TableTreeMut::finalize_dirty_checksums', exact=1)
+        cm = ctx.sites(f, TM + '::commit', exact=1)
+        dl = ctx.sites(f, 'TableTreeMut::delete_table', exact=1)
+        ctx.order(f, dl, ct, 'stale snapshot deleted before a new one is created')
+        ctx.must_pass(f, dl, what='every durable commit deletes the previous snapshot')
+        # the snapshot block precedes checksums and commit: from ct every path to cm passes fin
+        ctx.order(f, fin, cm)
+        if ct and fin:
+            r = core.reach(f, start=(fin[0].bb, fin[0].idx))
+            ctx.check(ct[0].bb not in r['term'], 'order|%s|snapshot-before-checksums' % f.path, 'the snapshot is written before the system tree checksums are finalized', f, ct[0].line)
+        clo = [c for c in f.closures if c.calls_to(TM + '::reserve_allocator_state')]
+        ctx.check(len(clo) == 1, 'floor|%s|snapshot-closure' % f.path, 'the snapshot closure exists', f, f.line)
+        for cl in clo:
+            a = ctx.sites(cl, TM + '::reserve_allocator_state', exact=1)
+            b = ctx.sites(cl, WT + '::store_system_freed_pages', exact=1)
+            c = ctx.sites(cl, TM + '::try_save_allocator_state', exact=1)
+            ctx.order(cl, a, b)
+            ctx.order(cl, b, c, 'system freed pages recorded before the allocator state is saved')
+            ctx.must_pass(cl, c, what='the closure only succeeds after try_save_allocator_state')
+            # success return only when try_save returned true
+            e_f = core.guard_edges(cl, [false_of(TM + '::try_save_allocator_state')])
+            e_t = core.guard_edges(cl, [true_of(TM + '::try_save_allocator_state')])
+            r = core.reach(cl, cut_edges=e_t, cut_blocks=core.error_blocks(cl))
+            ctx.check(bool(e_t) and not any(rb in r['term'] for rb in cl.ret_blocks()), 'guard|%s|save-true' % cl.path, 'the snapshot closure returns Ok only when try_save_allocator_state reported success', cl, cl.line)
+            for p in a:
+                ctx.flows(cl, p, 2, from_arg=None, what='reserve_allocator_state stores the committing transaction id')
+    f = ctx.fn(TM + '::reserve_allocator_state')
+    if f is not None:
+        ins = ctx.sites(f, 'BtreeMut::insert', exact=3)
+        okk = any(core.flows_from_arg(f, p.call.t['a'][2], 'transaction_id') for p in ins)
+        ctx.check(okk, 'flow|%s|txn-id' % f.path, 'reserve_allocator_state stores the transaction id it was given', f, f.line)
+    ctx.callers_eq(TM + '::reserve_allocator_state', {WT + '::durable_commit'})
+    ctx.callers_eq(TM + '::try_save_allocator_state', {WT + '::durable_commit'})
+    ctx.set_rule('C11.R6', 'check_integrity discipline')
+    f = ctx.fn('Database::check_integrity')
+    if f is not None:
+        ci = ctx.sites(f, 'Database::check_integrity_inner', exact=1)
+        ctx.guarded(f, ci, [Guard(call='Arc::get_mut', vals={'Some'})], 'no transaction alive')
+        ctx.guarded(f, ci, [false_of(TT + '::any_ephemeral_savepoint_exists')])
+        ctx.guarded(f, ci, [ok(TM + '::check_io_errors')])
+        ctx.guarded(f, ci, [true_of(TM + '::allocator_state_loaded')])
+        inv = ctx.sites(f, TM + '::invalidate_allocator_state', exact=1)
+        ctx.guarded(f, inv, [err('Database::check_integrity_inner')])
+        e_ok = core.guard_edges(f, [ok('Database::check_integrity_inner')])
+        ctx.must_pass(f, inv, start=ci[0] if ci else None, exits='any', extra_cut_edges=e_ok, what='a failed check always discards the half-rebuilt allocator state')
+    f = ctx.fn('Database::check_integrity_inner')
+    if f is not None:
+        cm = ctx.sites(f, TM + '::commit', exact=1)
+        rs = ctx.sites(f, TT + '::reserve_repair_transaction_id', exact=1)
+        ctx.must_pass(f, rs, start=cm[0] if cm else None, what='the repair commit id is reserved')
+        bw = ctx.sites(f, TM + '::begin_writable', exact=1)
+        cn = ctx.sites(f, TM + '::clear_needs_repair', exact=2)
+        ctx.order(f, cn, bw)
+        dr = ctx.sites(f, 'Database::do_repair', exact=1)
+        ctx.guarded(f, cm + bw, [ok('Database::do_repair')])
+        cr = ctx.sites(f, TM + '::clear_cache_and_reload', exact=1)
+        ctx.guarded(f, dr, [ok(TM + '::clear_cache_and_reload')])
+        for p in cm:
+            ctx.const_arg(f, p, 4, True, 'repair commit is two-phase')
+
+
+# ------------------------------------------------------------------------------------ C12 (db.rs / header.rs part)
+def c12_db_rules(ctx):
+    ctx.set_rule('C12.R1a', 'both trees are verified; a failing tree yields false')
+    f = ctx.fn('Database::verify_checksums')
+    if f is not None:
+        vs = ctx.sites(f, 'TableTree::verify_checksums', exact=2)
+        # Ok(true) only after both returned true
+        trues = []
+        for i, b_ in enumerate(f.blocks):
+            for j, s_ in enumerate(b_['s']):
+                if s_[0] == 'a' and s_[2]['k'] == 'agg' and s_[2]['v'] == 'Ok' and s_[2]['o'] and s_[2]['o'][0][0] == 'k' and s_[2]['o'][0][2] is True:
+                    trues.append(Point(f, i, j, 'return Ok(true)', s_[3]))
+        ctx.check(len(trues) == 1, 'floor|%s|ok-true' % f.path, 'verify_checksums has exactly one Ok(true) return', f, f.line)
+        for v in vs:
+            cb, cp = ctx._cuts(f, [v])
+            r = core.reach(f, cut_blocks=cb)
+            ctx.check(not any(core.point_reached(f, r, t.bb, t.idx) for t in trues), 'must-pass|%s|%s' % (f.path, v.line and 'verify'), 'Ok(true) is unreachable without verifying both trees', f, v.line)
+        e_t = core.guard_edges(f, [true_of('TableTree::verify_checksums')])
+        for v in vs:
+            r = core.reach(f, start=(v.bb, v.idx), cut_edges={e for e in e_t if e[0] in _succ_switch_blocks(f, v.bb)})
+            ctx.check(not any(core.point_reached(f, r, t.bb, t.idx) for t in trues), 'guard|%s|false-propagates' % f.path, 'a tree that fails verification cannot lead to Ok(true)', f, v.line)
+        tt = ctx.sites(f, 'TableTree::new', exact=2)
+        srcs = set()
+        for p in tt:
+            for nm in ('data_root', 'system_root'):
+                if core.flows_from_arg(f, p.call.t['a'][0], nm):
+                    srcs.add(nm)
+        ctx.check(srcs == {'data_root', 'system_root'}, 'flow|%s|roots' % f.path, 'one tree is built from data_root and one from system_root', f, f.line)
+    ctx.set_rule('C12.R3', 'a slot that failed verification is never re-serialised as valid')
+    f = ctx.fn('TransactionHeader::to_bytes')
+    if f is not None:
+        xx = ctx.sites(f, 'xxh3_checksum', exact=1)
+        ctx.guarded(f, xx, [Guard(place='self.corrupt_bytes', vals={'None'})], 'a fresh checksum is computed only for slots without corrupt_bytes')
+    f = ctx.fn('TransactionHeader::from_bytes')
+    if f is not None:
+        somes = []
+        for i, b_ in enumerate(f.blocks):
+            for j, s_ in enumerate(b_['s']):
+                if s_[0] == 'a' and s_[2]['k'] == 'agg' and s_[2]['v'] == 'Some' and 'u8; 128' in f.local_ty(s_[1][0]):
+                    somes.append(Point(f, i, j, 'corrupt_bytes = Some(raw)', s_[3]))
+        ctx.check(len(somes) == 1, 'floor|%s|corrupt-some' % f.path, 'from_bytes keeps the raw bytes of a corrupted slot', f, f.line)
+        ctx.guarded(f, somes, [Guard(place='corrupted', vals={'true'})])
+        e_f = core.guard_edges(f, [Guard(place='corrupted', vals={'false'})])
+        ctx.must_pass(f, somes, extra_cut_edges=e_f, what='a corrupted slot always keeps its raw bytes')
+        xs = ctx.sites(f, 'xxh3_checksum', exact=1)
+    own = set()
+    for f_ in ctx.facts.fn_list:
+        for b in f_.blocks:
+            for s_ in b['s']:
+                if s_[0] == 'a' and s_[1][1] and s_[1][1][-1] == '.corrupt_bytes':
+                    own.add(f_.path)
+    ctx.check(own == {'tree_store::page_store::header::DatabaseHeader::write_secondary_slot'}, 'writers|corrupt_bytes', 'only write_secondary_slot resets corrupt_bytes (found %s)' % sorted(own))
+    ctx.set_rule('C12.R4', 'slot selection never promotes a corrupted slot')
+    f = ctx.fn('UnrepairedDatabaseHeader::select_primary_slot')
+    if f is not None:
+        sw = ctx.sites(f, 'DatabaseHeader::swap_primary_slot', exact=2)
+        ctx.guarded(f, sw, [Guard(place='self.secondary_corrupted', vals={'false'})], 'the secondary is promoted only if its checksum verified')
+        ctx.guarded(f, sw, [Guard(place='two_phase_commit', vals={'false'})], 'no fallback after a two-phase commit')
+        # 2PC arm: Ok(..) only if primary not corrupted
+        e = core.guard_edges(f, [Guard(place='two_phase_commit', vals={'false'}), Guard(place='self.primary_corrupted', vals={'false'})])
+        r = core.reach(f, cut_edges=e, cut_blocks=core.error_blocks(f))
+        ctx.check(not any(rb in r['term'] for rb in f.ret_blocks()), 'guard|%s|2pc-corrupt' % f.path, 'with two-phase commit a corrupted primary cannot be accepted', f, f.line)
+        # non-2PC: primary kept only if not corrupted
+        e = core.guard_edges(f, [Guard(place='self.primary_corrupted', vals={'false'})])
+        cb, _ = ctx._cuts(f, sw)
+        r = core.reach(f, cut_edges=e, cut_blocks=cb | core.error_blocks(f))
+        ctx.check(not any(rb in r['term'] for rb in f.ret_blocks()), 'guard|%s|keep-corrupt-primary' % f.path, 'a corrupted primary is never kept', f, f.line)
+    f = ctx.fn('UnrepairedDatabaseHeader::finalize')
+    if f is not None:
+        sp = ctx.sites(f, 'UnrepairedDatabaseHeader::select_primary_slot', exact=2)
+        ctx.must_pass(f, sp, what='every successful finalize selects the primary slot')
+    ctx.set_rule('C12.R5', 'entry counts are recounted, not trusted')
+    f = ctx.fn('Database::rebuild_allocator_state')
+    if f is not None:
+        rc = ctx.sites(f, 'Database::with_recounted_length', exact=2)
+        for p in rc:
+            ctx.flows(f, p, 1, from_call='TableTree::count_tables')
+        rl, rcalls, _a, _k = core.flow_sources(f, 0)
+        ctx.check(sum(1 for bb in rcalls if core.CallSite(f, bb, f.blocks[bb]['t']).matches('Database::with_recounted_length')) == 2, 'flow|%s|return' % f.path, 'both returned roots come from with_recounted_length', f, f.line)
+    ctx.set_rule('C12.R6', 'the clean verdict depends on all observations')
+    f = ctx.fn('Database::check_integrity_inner')
+    if f is not None:
+        # the store `was_clean = false` is control dependent on each of the comparisons
+        st = []
+        for i, b_ in enumerate(f.blocks):
+            for j, s_ in enumerate(b_['s']):
+                if s_[0] == 'a' and not s_[1][1] and f.local_name(s_[1][0]) == 'was_clean' and s_[2]['k'] == 'use' and s_[2]['o'][0] == 'k' and s_[2]['o'][2] is False:
+                    st.append(Point(f, i, j, 'was_clean = false', s_[3]))
+        ctx.check(len(st) == 1, 'floor|%s|was_clean-false' % f.path, 'one `was_clean = false` store', f, f.line)
+        ah = ctx.sites(f, TM + '::allocator_hash', exact=2)
+        # not-clean is forced when: roots differ, hash differs, rolling back
+        for g, what in (([Guard(call=TM + '::allocator_hash', cmp=True)], 'allocator hash comparison'),
+                        ([Guard(place='rolling_back_non_durable', vals={'true'})], 'rolling_back_non_durable'),
+                        ([Guard(place='old_roots', cmp=True), Guard(place='new_roots', cmp=True)], 'old/new roots comparison')):
+            e = core.guard_edges(f, g)
+            ctx.check(bool(e), 'guard-missing|%s|%s' % (f.path, what), 'check_integrity_inner tests %s' % what, f, f.line)
+            if e and st:
+                # some guard edge leads to the store without passing another test's refusing arm: the store is reachable from that edge
+                reach_any = False
+                for (bb, si) in e:
+                    tb = f.succ(bb)[si][0]
+                    r = core.reach(f, start=(tb, -1))
+                    if core.point_reached(f, r, st[0].bb, st[0].idx):
+                        reach_any = True
+                ctx.check(reach_any, 'flow|%s|%s' % (f.path, what), '%s can force the not-clean verdict' % what, f, st[0].line)
+        # reload result feeds was_clean
+        cr = ctx.sites(f, TM + '::clear_cache_and_reload', exact=1)
+        # return Ok(was_clean)
+        rl, rcalls, _a, _k = core.flow_sources(f, 0)
+        names = [core.CallSite(f, bb, f.blocks[bb]['t']) for bb in rcalls]
+        ctx.check(any(n.matches(TM + '::clear_cache_and_reload') for n in names), 'flow|%s|reload-clean' % f.path, 'the verdict derives from clear_cache_and_reload (header was clean)', f, f.line)
+        ctx.check(any(n.matches('Database::repair_live_state') for n in names) and any(n.matches('Database::durable_state_clean') for n in names), 'flow|%s|promote-verdict' % f.path, 'the promote-path verdict derives from repair_live_state and durable_state_clean', f, f.line)
+        # the rebuild happens between the two hashes
+        dr = ctx.sites(f, 'Database::do_repair', exact=1)
+        if len(ah) == 2 and dr:
+            r = core.reach(f, cut_blocks={dr[0].bb})
+            first = [p for p in ah if p.bb in r['term']]
+            second = [p for p in ah if p.bb not in r['term']]
+            ctx.check(len(first) == 1 and len(second) == 1, 'order|%s|hash-around-repair' % f.path, 'one allocator hash is taken before and one after the rebuild', f, dr[0].line)
+
+
+def _succ_switch_blocks(f, bb):
+    """switch blocks reachable from bb without passing another call (the test of bb's result)."""
+    out = set()
+    dq = [bb]
+    seen = set()
+    first = True
+    while dq:
+        b = dq.pop()
+        if b in seen:
+            continue
+        seen.add(b)
+        t = f.blocks[b]['t']
+        if t['k'] == 'sw':
+            out.add(b)
+        if t['k'] == 'call' and not first and not core.CallSite(f, b, t).matches(('Try::branch', 'Deref::deref')):
+            continue
+        first = False
+        for tb, _l in f.succ(b):
+            dq.append(tb)
+    return out
+
+
+# ------------------------------------------------------------------------------------ C13
+def c13_rules(ctx):
+    ctx.set_rule('C13.R1', 'compaction refuses with readers/savepoints, re-checked inside the write transaction')
+    f = ctx.fn('Database::compact')
+    if f is not None:
+        bw = ctx.sites(f, 'Database::begin_write', exact=2)
+        cp = ctx.sites(f, WT + '::compact_pages', exact=1)
+        dr = ctx.sites(f, 'Database::drain_pending_free_pages', exact=2)
+        for g in ([false_of(TT + '::any_persistent_savepoint_exists')], [false_of(TT + '::any_savepoint_exists')], [false_of(TT + '::any_user_read_reference_exists')]):
+            ctx.guarded(f, bw + cp + dr, g)
+        # first begin_write is behind the three pre-checks: identify it as the one that can reach list_persistent_savepoints
+        lp = ctx.sites(f, WT + '::list_persistent_savepoints', exact=1)
+        ctx.guarded(f, cp + dr, [Guard(call='Iterator::next', vals={'None'})], 'no persistent savepoint inside the write transaction')
+        # re-check: from the first begin_write, compact_pages only through a second false edge of each tracker check
+        first = None
+        for p in bw:
+            r = core.reach(f, cut_blocks={p.bb})
+            if lp and lp[0].bb not in r['term']:
+                first = p
+        ctx.check(first is not None, 'shape|%s|first-begin_write' % f.path, 'the first begin_write precedes the in-transaction re-check', f, f.line)
+        if first is not None:
+            for callee in (TT + '::any_savepoint_exists', TT + '::any_user_read_reference_exists'):
+                e = core.guard_edges(f, [false_of(callee)])
+                r = core.reach(f, start=(first.bb, first.idx), cut_edges=e)
+                ctx.check(cp and cp[0].bb not in r['term'], 'guard|%s|recheck|%s' % (f.path, callee), 'after begin_write, compaction proceeds only through a re-check of %s' % callee, f, first.line)
+    ctx.callers_eq(WT + '::compact_pages', {'Database::compact'})
+    ctx.set_rule('C13.R2', 'compaction publishes only through ordinary commits; pending frees drained with two-phase commits')
+    f = ctx.fn('Database::drain_pending_free_pages')
+    if f is not None:
+        tp = ctx.sites(f, WT + '::set_two_phase_commit', exact=1)
+        cm = ctx.sites(f, WT + '::commit', exact=1)
+        for p in tp:
+            ctx.const_arg(f, p, 1, True)
+        ctx.order(f, tp, cm)
+    f = ctx.fn('Database::compact')
+    if f is not None:
+        ctx.no_direct(f, [TM + '::commit', TM + '::non_durable_commit', PA + '::free', TM + '::free'], 'compact() itself touches no page state')
+    ctx.set_rule('C13.R3', 'relocation bookkeeping')
+    for nm in ('UntypedBtreeMut::relocate_helper', 'multimap_btree::relocate_subtrees'):
+        f = ctx.fn(nm)
+        if f is not None:
+            fu = ctx.sites(f, PA + '::free_if_uncommitted', floor=1)
+            pu = ctx.sites(f, 'Vec::push', floor=1)
+            ctx.guarded(f, pu, [false_of(PA + '::free_if_uncommitted')], 'a committed old page is queued, not freed')
+    f = ctx.fn(WT + '::compact_pages')
+    if f is not None:
+        fr = ctx.sites(f, PA + '::free', exact=1)
+        ctx.guarded_cmp(f, fr, [Guard(call='PageMut::get_page_number', cmp=True), Guard(call='PagePath::page_number', cmp=True), Guard(call='PartialOrd::lt', vals={'false'})], 'probe page freed on the not-lower arm')
+        rt = ctx.sites(f, 'TableTreeMut::relocate_tables', exact=2)
+        ctx.must_pass(f, rt, what='every successful compaction pass relocates both trees')
+
+
+# ------------------------------------------------------------------------------------ C14
+def c14_rules(ctx):
+    ctx.set_rule('C14.R1', 'every source of new free space re-marks the region tracker')
+    exp_free = {TM + '::free_helper'}
+    ctx.callers_eq('BuddyAllocator::free', exp_free | {'BuddyAllocator::free', 'BuddyAllocator::free_inner', 'BuddyAllocator::resize', 'BuddyAllocator::new'}, allow_missing={'BuddyAllocator::free', 'BuddyAllocator::free_inner', 'BuddyAllocator::resize', 'BuddyAllocator::new'})
+    ctx.callers_eq('BuddyAllocator::resize', {'Allocators::resize_to'})
+    ctx.callers_eq('BuddyAllocator::new', {'Allocators::resize_to', 'Allocators::new', 'BuddyAllocator::from_bytes'}, allow_missing={'BuddyAllocator::from_bytes'})
+    n = 0
+    f = ctx.fn(TM + '::free_helper')
+    if f is not None:
+        fr = ctx.sites(f, 'BuddyAllocator::free', exact=1)
+        mf = ctx.sites(f, 'RegionTracker::mark_free', exact=1)
+        ctx.must_pass(f, mf, start=fr[0] if fr else None, exits='any', what='a freed block is always marked free in the tracker')
+        ctx.held(f, fr + mf, 'self.state')
+        ctx.set_rule('C14.R2', 'the order marked is the order obtained')
+        for p in mf:
+            ctx.flows(f, p, 1, from_call='BuddyAllocator::free', what='mark_free order = merged order returned by BuddyAllocator::free')
+            ctx.flows(f, p, 2, from_arg='page')
+        ctx.set_rule('C14.R1', '')
+        n += 1
+    f = ctx.fn('Allocators::resize_to')
+    if f is not None:
+        rz = ctx.sites(f, 'BuddyAllocator::resize', exact=2)
+        nw = ctx.sites(f, 'BuddyAllocator::new', exact=1)
+        mf = ctx.sites(f, 'RegionTracker::mark_free', exact=2)
+        # the growing resize (followed by highest_free_order) and the new allocator must reach mark_free
+        hf = ctx.sites(f, 'BuddyAllocator::highest_free_order', exact=2)
+        grow = [p for p in rz if any(h.bb in core.reach(f, start=(p.bb, p.idx))['term'] for h in hf)]
+        ctx.check(len(grow) == 1, 'shape|%s|grow-resize' % f.path, 'one growing BuddyAllocator::resize in resize_to', f, f.line)
+        for p in grow + nw:
+            ctx.must_pass(f, mf, start=p, exits='any', what='%s is always followed by mark_free' % p.desc)
+            n += 1
+        ctx.set_rule('C14.R2', 'the order marked is the order obtained')
+        for p in mf:
+            ctx.flows(f, p, 1, from_call='BuddyAllocator::highest_free_order')
+        ctx.set_rule('C14.R3', 'a region is marked full only on evidence')
+        mfull = ctx.sites(f, 'RegionTracker::mark_full', exact=1)
+        for p in mfull:
+            ctx.flows(f, p, 2, from_call='DatabaseLayout::num_regions', what='regions marked full are the removed ones (index from new_layout.num_regions()..)')
+        ctx.guarded(f, mfull, [Guard(place='shrink', vals={'true'})])
+    ctx.set_rule('C14.R1', 'every source of new free space re-marks the region tracker')
+    f = ctx.fn('Allocators::new')
+    if f is not None:
+        nw = ctx.sites(f, 'BuddyAllocator::new', exact=1)
+        mf = ctx.sites(f, 'RegionTracker::mark_free', exact=1)
+        ctx.must_pass(f, mf, start=nw[0] if nw else None, exits='any', what='a new region is marked free')
+        ctx.set_rule('C14.R2', '')
+        for p in mf:
+            ctx.flows(f, p, 1, from_call='BuddyAllocator::get_max_order')
+        n += 1
+    ctx.set_rule('C14.R1', '')
+    ctx.check(n >= 4, 'floor|free-space-sources', 'the 4 confirmed sources of free space were analysed (found %d)' % n)
+    ctx.callers_eq('RegionTracker::mark_free', {TM + '::free_helper', 'Allocators::resize_to', 'Allocators::new'})
+    ctx.set_rule('C14.R3', 'a region is marked full only on evidence')
+    ctx.callers_eq('RegionTracker::mark_full', {TM + '::allocate_helper_retry', 'Allocators::resize_to'})
+    f = ctx.fn(TM + '::allocate_helper_retry')
+    if f is not None:
+        mfull = ctx.sites(f, 'RegionTracker::mark_full', exact=1)
+        al = ctx.sites(f, ['BuddyAllocator::alloc', 'BuddyAllocator::alloc_lowest'], exact=2)
+        ctx.guarded(f, mfull, [Guard(call='BuddyAllocator::alloc', vals={'None'}), Guard(call='BuddyAllocator::alloc_lowest', vals={'None'}), Guard(place='r', vals={'None'})], 'mark_full only after the allocation attempt returned None')
+        ff = ctx.sites(f, 'RegionTracker::find_free', exact=1)
+        gr = ctx.sites(f, 'InMemoryState::get_region_mut', exact=1)
+        for p in gr:
+            ctx.flows(f, p, 1, from_call='RegionTracker::find_free', what='the allocation attempt uses the region find_free returned')
+        for p in mfull:
+            ctx.flows(f, p, 2, from_call='RegionTracker::find_free')
+            ctx.flows(f, p, 1, from_arg='required_order')
+        for p in al:
+            ctx.flows(f, p, 1, from_arg='required_order')
+        for p in ff:
+            ctx.flows(f, p, 1, from_arg='required_order')
